@@ -1,0 +1,45 @@
+//go:build verif
+
+package retrypolicy
+
+import (
+	"context"
+	"time"
+
+	"github.com/failsafe-go/failsafe-go"
+)
+
+// verifAttempt is a stub failsafe.ExecutionAttempt with a chosen retry count and elapsed time.
+type verifAttempt[R any] struct {
+	retries int
+	elapsed time.Duration
+}
+
+func (a *verifAttempt[R]) Context() context.Context          { return context.Background() }
+func (a *verifAttempt[R]) Attempts() int                     { return a.retries + 1 }
+func (a *verifAttempt[R]) Executions() int                   { return a.retries + 1 }
+func (a *verifAttempt[R]) Retries() int                      { return a.retries }
+func (a *verifAttempt[R]) Hedges() int                       { return 0 }
+func (a *verifAttempt[R]) StartTime() time.Time              { return time.Time{} }
+func (a *verifAttempt[R]) ElapsedTime() time.Duration        { return a.elapsed }
+func (a *verifAttempt[R]) LastResult() R                     { return *new(R) }
+func (a *verifAttempt[R]) LastError() error                  { return nil }
+func (a *verifAttempt[R]) IsFirstAttempt() bool              { return a.retries == 0 }
+func (a *verifAttempt[R]) IsRetry() bool                     { return a.retries > 0 }
+func (a *verifAttempt[R]) IsHedge() bool                     { return false }
+func (a *verifAttempt[R]) AttemptStartTime() time.Time       { return time.Time{} }
+func (a *verifAttempt[R]) ElapsedAttemptTime() time.Duration { return 0 }
+
+var _ failsafe.ExecutionAttempt[any] = &verifAttempt[any]{}
+
+// VerifDelaySequence builds the policy's real executor and calls its real getDelay n times, as after n consecutive
+// failures, without waiting. The k-th call (k = 0..n-1) sees Retries() == k and ElapsedTime() == elapsed(k).
+// Verification hook: only compiled with -tags verif.
+func VerifDelaySequence[R any](rp RetryPolicy[R], n int, elapsed func(k int) time.Duration) []time.Duration {
+	e := rp.ToExecutor(*new(R)).(*executor[R])
+	delays := make([]time.Duration, 0, n)
+	for k := 0; k < n; k++ {
+		delays = append(delays, e.getDelay(&verifAttempt[R]{retries: k, elapsed: elapsed(k)}))
+	}
+	return delays
+}
